@@ -1,5 +1,42 @@
 package main
 
+import "strings"
+
 // namedRewrites are file-specific source rewrites selected by a check's verif.conf (REWRITES=...).
 // Each must find its construct or exit 3 (the check then reports a harness error, never a violation).
 var namedRewrites = map[string]func(){}
+
+func init() {
+	// mathrand: route the fork-choice coin (mrand.Float64) of core through zzverif/vrand.
+	namedRewrites["mathrand"] = func() {
+		for _, rel := range []string{"core/blockchain.go", "core/headerchain.go"} {
+			_, src := srcOf(rel)
+			s := string(src)
+			const old = `mrand "math/rand"`
+			if strings.Count(s, old) != 1 {
+				die(3, "rewrite mathrand: %s does not import math/rand as mrand exactly once", rel)
+			}
+			s = strings.Replace(s, old, `mrand "`+modPath+`/zzverif/vrand"`, 1)
+			emit(rel, []byte(s))
+		}
+	}
+}
+
+func init() {
+	// logexit: make log.Crit raise a recoverable sentinel panic instead of exiting (fault injection).
+	namedRewrites["logexit"] = func() {
+		rel := "common/log/root.go"
+		_, src := srcOf(rel)
+		s := string(src)
+		i := strings.Index(s, "func Crit(")
+		if i < 0 {
+			die(3, "rewrite logexit: func Crit not found in %s", rel)
+		}
+		j := strings.Index(s[i:], "os.Exit(1)")
+		if j < 0 {
+			die(3, "rewrite logexit: os.Exit(1) not found in Crit")
+		}
+		s = s[:i+j] + "verifExit(msg)\n\t" + s[i+j:]
+		emit(rel, []byte(s))
+	}
+}
